@@ -14,6 +14,8 @@ LaySmall == L1 \cup L2 \cup L3
 LayMid == LaySmall \cup L4
 LayBig == LayMid \cup L5 \cup L6
 NoCounts == {}
+Base1 == {1}
+BaseAll == 1..NH
 HostCounts == {-1, 0, 1, 2, 3, 4, 99}
 HostLens == {0, 1, 2, 3, 4}
 AllKinds == {"tx", "g2", "g3"}
